@@ -2,6 +2,7 @@ from runners.common import replay_with
 from runners.uneval_flow import flow
 
 TRUSTED = [
+    "bridge/trans_decorator.py: fail-closed ast translator of _get_hashable_object, _extract_field_values, _get_arguments and new_method (+ the cls.__new__/__getnewargs__/_hashable_content/_eval_subs/_xreplace wiring) from the CURRENT source text into Gallina over the object model coq/theories/PyModel.v (primitives isclass/hash/str/dict/kwargs/setattr are model primitives); tied to the real helpers by a ~200-input correspondence per run (bridge/corr_decorator.py)",
     "hand-written model coq/theories/Uneval.v of src/ampform/sympy/_decorator.py (new/get_arguments/xreplace/subs/hashable content/doit/func), tied by the T2 correspondence run",
     "SymPy core constructors (Add, Mul, Pow, Sum, Piecewise, array helper classes ...) are FREE constructors in the model; results are compared after rebuilding both sides through SymPy's constructors (and sp.expand when sign/number placement still differs)",
     "bridge/classtab.py (T3 class table incl. evaluate() templates; faithfulness of every template probed on 3 argument sets per run), bridge/uneval_ir.py (SymPy <-> model terms)",
@@ -19,7 +20,8 @@ def run(chk):
     ]
     flow(chk, "C14", "C14_lemmas.v", "C14.v", "search_C14.py", (150, 800), (250, 2500),
          "search: implementation only, property as stated (xreplace/subs-then-doit vs doit-then-xreplace/subs, nested reach, "
-         "==/hash vs parts, func(*args), lambdify folded vs unfolded); distinct = distinct generated cases that were defined")
+         "==/hash vs parts, func(*args), lambdify folded vs unfolded); distinct = distinct generated cases that were defined",
+         decorator=True)
 
 
 def replay(path):
